@@ -146,6 +146,14 @@ def run(ctx):
                 for r in cls[1]:
                     bad_sites.add(r["site"])
             ctx.apalache[-1 if what == "honest-fit" else -2]["expected"] = "NoError"
+    # ---- the generic moves against prover-supplied values GlGadgets has no game for (ForeignMoves.tla): which move wins against which
+    #      set of constraints, decided by TLC and replayed on gnark's bit decomposition and a two-limb split; the FOREIGN guard of the checks
+    #      plays exactly these moves at foreign hint sites, so a table mismatch is a drift of the machinery (incomplete run), not a violation
+    fm = ctx.tlc("ForeignMoves", "ForeignMoves.cfg", workers=1, timeout=900)
+    fr = ctx.run_driver("foreignself", {"table": os.path.join(fm["dir"], "foreign_table.json"), "shard": 0}, tag="foreignself")
+    for v in fr.get("violations", []):
+        ctx.deferred.append("ForeignMoves table mismatch: " + str(v.get("detail"))[:300])
+    ctx.notes.append("ForeignMoves.tla table replayed on real gadgets: %d rows, %d mismatches" % (fr.get("evaluations", 0), len(fr.get("violations", []))))
     # ---- M1 at gadget level: operand classes on which an alternative would pass a weakened width check ------
     ctx.absorb(ctx.run_driver("c05", {"part": "gadget", "instance": "testdata"}, tag="gadget"), "c05")
     # ---- M1 injection -------------------------------------------------------------------------------------
